@@ -32,6 +32,8 @@ def fuzz_case(rng, k):
             lines.append(stmt() + " ! trailing 'c")
         elif r < 0.6:
             lines.append(rng.choice(["#define X 1", "  #if A", "#define Y \\"]))
+        elif r < 0.64:
+            lines += ["#define Z(a) \\", "  (a) + \\", "  1" + rng.choice(["", " \\"])]
         else:
             lines.append(rng.choice(["", " ", "   "]) + stmt())
     return (lines, 1, int(k % 3 == 0), k % 2)
